@@ -5,7 +5,10 @@ Case format (all JSON):
    "delivery":"list"|"lazy"   (lazy: every filter is fed from a generator that builds each interaction and its action objects
                                freshly and drops it right after it was yielded; the output is judged and dropped one by one),
    "wrap":null|"lazysparse"|"hashable"   (sparse actions are handed over as coba.pipes.rows.LazySparse / HashableSparse views),
-   "more":[[INTER...]...]      (further sequences pushed through the SAME filter objects, one after the other, each judged on its own)}
+   "more":[[INTER...]...]      (further sequences pushed through the SAME filter objects, one after the other, each judged on its own),
+   "collection":true, "read_order":[member...]   (via "shortcuts" only: stream and more are the members of ONE Environments object; the
+                               shortcuts are applied to the collection, the members are read in `read_order`, and every member must
+                               come out as a fresh pipeline on that member alone would give it)}
   INTER = {"context":V, "actions":[V...]?, "rewards":REW?, "feedbacks":REW?, "action":V?, "reward":Q?, "probability":Q?,
            "order":[key...]?   (the insertion order of the interaction dict's keys; default = the constructor's order)}
   V     = null | {"n":[num,den]} | {"s":str} | {"c":str,"L":[str...]} | {"l":[V...]} | {"t":[V...]} | {"d":[[key,V]...]}
@@ -325,9 +328,15 @@ class Pipeline:
         bstates, _ = batch_states(chain)
         Env = make_env_class()
         self.mode = case.get("via") or "filters"
+        self.collection = bool(case.get("collection")) and self.mode == "shortcuts"
         if self.mode == "shortcuts":
             from coba.environments import Environments
-            envs = Environments(Env(lambda: self.source()))
+            if self.collection:
+                # one Environments object holding every member; each member env reads from its own slot
+                self.sources = [None] * len(sequences(case))
+                envs = Environments([Env(lambda j=j: self.sources[j]()) for j in range(len(self.sources))])
+            else:
+                envs = Environments(Env(lambda: self.source()))
             for st, b in zip(chain, bstates):
                 f = st["f"]
                 if b and f not in ("batch", "unbatch"):
@@ -350,6 +359,7 @@ class Pipeline:
                     envs = envs.filter(mk_filter(st))
                 elif f == "cycle":
                     envs = envs.cycle(st["after"])
+            self.envs = envs
             self.env = envs[0]           # appends BatchSafe(Finalize()) exactly as iteration / experiments do
             return
         from coba.pipes import Pipes
@@ -359,9 +369,12 @@ class Pipeline:
         else:
             self.mode = "filters"
 
-    def run(self, source):
-        """iterator over the output interactions for the interactions `source()` delivers"""
+    def run(self, source, member=0):
+        """iterator over the output interactions for the interactions `source()` delivers (collection: through member `member`)"""
         self.source = source
+        if getattr(self, "collection", False):
+            self.sources[member] = source
+            return iter(self.envs[member].read())
         if self.mode in ("shortcuts", "pipes"):
             return iter(self.env.read())
         items = source()
@@ -1082,6 +1095,76 @@ class Gen:
             stream.append(it)
         return stream
 
+    def indicator_collection(self, P, case):
+        """members whose actions are sparse indicator rows `{key: 1}` over disjoint vocabularies of different sizes, densified by look-up
+        into exactly as many slots as the largest member needs: any slot shared between members merges two actions of a member"""
+        r = self.r
+        members, sizes = [], r.shuffle([2, 3, 4, 5])[:r.choice([2, 2, 3])]
+        kind = r.choice(["sim", "sim", "igl", "logged"])
+        for j, k in enumerate(sizes):
+            keys = ["%s%d" % ("pqr"[j], i) for i in range(k)]
+            stream = []
+            for t in range(r.choice([1, 2, 3])):
+                acts = [{"d": [[key, V_n(1)]]} for key in (keys if r.chance(0.6) else r.shuffle(keys))]
+                vals = self.distinct_nums(k)
+                rw = r.choice([{"k": "discrete", "actions": _copy(acts), "values": vals, "default": [0, 1], "dict": False},
+                               {"k": "fn", "table": [[a, v] for a, v in zip(_copy(acts), vals)], "default": FN_DEFAULT},
+                               {"k": "binary", "argmax": _copy(r.choice(acts)), "value": [1, 1]}])
+                it = {"context": V_n(t), "actions": acts, "rewards": rw}
+                if kind == "igl":
+                    it["feedbacks"] = {"k": "fn", "table": [[a, v] for a, v in zip(_copy(acts), self.distinct_nums(k))], "default": FN_DEFAULT}
+                if kind == "logged":
+                    it = {"context": V_n(t), "actions": acts, "action": _copy(r.choice(acts)), "reward": self.num(), "probability": [1, 4]}
+                stream.append(it)
+            members.append(stream)
+        chain = [{"f": "densify", "n": max(sizes), "m": "lookup", "c": False, "a": True}]
+        if r.chance(0.3):
+            chain.insert(r.below(2), r.choice([{"f": "sparsify", "c": True, "a": True}, {"f": "flatten"}, {"f": "repr", "cc": "onehot", "ca": "onehot"}]))
+        order = r.shuffle(list(range(len(members))))
+        if r.chance(0.3):
+            order.append(r.choice(order))
+        out = {"stream": members[0], "more": members[1:], "chain": chain, "via": "shortcuts", "collection": True, "read_order": order}
+        if r.chance(0.3):
+            out["delivery"] = "lazy"
+        return out
+
+    def collection_case(self, P, case):
+        """one Environments object with 2-3 member environments over different feature vocabularies; the shortcuts are applied to the
+        collection and the members are read one after the other, in a PRNG order (sometimes a member twice)"""
+        r = self.r
+        members = []
+        sparse = r.chance(0.75)
+        if sparse and r.chance(0.5):
+            return self.indicator_collection(P, case)
+        for j in range(r.choice([2, 2, 3])):
+            Pj = dict(P)
+            if sparse:
+                Pj["sc"] = self.plain_sparse_schema() if r.chance(0.8) else self.sparse_schema()
+                Pj["csc"] = self.plain_sparse_schema() if r.chance(0.4) else ("num",)
+                Pj["has_actions"], Pj["mode"] = True, r.choice(["repeat", "fresh"])
+                Pj["k"] = r.choice([2, 3, 4])
+            members.append(self.build_stream(Pj, r.choice([1, 2, 3])))
+        chain = [st for st in case["chain"] if st["f"] not in ("batch", "unbatch")] or [{"f": "flatten"}]
+        if sparse and r.chance(0.7):
+            # a look-up table that is big enough for every member alone (but not for their union, if anything were shared)
+            need = 1
+            for m in members:
+                keys = set()
+                for it in m:
+                    for v in [it.get("context")] + list(it.get("actions") or []) + ([it["action"]] if "action" in it else []):
+                        if isinstance(v, dict) and "d" in v:
+                            keys.update(k for k, _ in v["d"])
+                need = max(need, len(keys))
+            st = {"f": "densify", "n": need + r.choice([0, 0, 1]), "m": "lookup", "c": r.chance(0.5), "a": True}
+            chain[r.below(len(chain))] = st
+        order = r.shuffle(list(range(len(members))))
+        if r.chance(0.3):
+            order.append(r.choice(order))
+        out = {"stream": members[0], "more": members[1:], "chain": chain, "via": "shortcuts", "collection": True, "read_order": order}
+        if case.get("delivery"):
+            out["delivery"] = case["delivery"]
+        return out
+
     def case(self, tier, focus=None):
         r = self.r
         # "long": 20-60 interactions with fresh action objects each, delivered lazily (objects of earlier interactions die while reading)
@@ -1133,6 +1216,8 @@ class Gen:
         if case.get("wrap") == "hashable":
             # HashableSparse views are hashable, the model's dicts are not: Cycle's `set(actions)` would differ
             case["chain"] = [st if st["f"] != "cycle" else {"f": "flatten"} for st in chain]
+        if focus is None and not long_ and r.chance(0.08):
+            return self.collection_case(P, case)
         # the same filter objects applied to one or two further sequences
         if reuse and not long_:
             case["more"] = [self.build_stream(P, r.choice([1, 2, 3])) for _ in range(r.choice([1, 1, 2]))]
@@ -1199,6 +1284,8 @@ class C10(Property):
 
     def search(self, rng, tier):
         g = Gen(rng)
+        if rng.chance(0.25):
+            return g.indicator_collection(None, None) if rng.chance(0.6) else g.case(tier)
         focus = rng.choice([
             lambda g: {"f": "repr", "cc": g.r.choice(MODES), "ca": g.r.choice(MODES[1:])},
             lambda g: {"f": "sparsify", "c": g.r.chance(0.5), "a": True},
@@ -1347,9 +1434,20 @@ class C10(Property):
         stepw = Stepwise(case)
         prior = {}             # step index -> keys a Densify(lookup) step was asked for in earlier sequences (None = unknown)
         results, nontrivial = [], False
-        for si, seq in enumerate(sequences(case)):
-            where = "" if si == 0 else "sequence %d (same filter objects): " % (si + 1)
-            r = self.eval_sequence(case, seq, si, where, pipe, pipe_err, stepw, chain, lazy, fails, tags)
+        seqs = sequences(case)
+        collection = bool(case.get("collection")) and case.get("via") == "shortcuts"
+        order = [m for m in (case.get("read_order") or range(len(seqs))) if 0 <= m < len(seqs)] if collection else list(range(len(seqs)))
+        if collection:
+            tags.append("collection:%d" % len(seqs))
+        for si, mi in enumerate(order):
+            seq = seqs[mi]
+            if collection:
+                # the members of one Environments object: each must come out as a fresh pipeline on that member alone gives it
+                where = "member %d of the collection (read #%d): " % (mi, si + 1)
+                stepw, prior = Stepwise(case), {}
+            else:
+                where = "" if si == 0 else "sequence %d (same filter objects): " % (si + 1)
+            r = self.eval_sequence(case, seq, mi if collection else 0, where, pipe, pipe_err, stepw, chain, lazy, fails, tags)
             nontrivial = nontrivial or r["nontrivial"]
             model = None
             if driver is not None:
@@ -1490,7 +1588,7 @@ class C10(Property):
                 if lazy:
                     # fed from a generator of fresh objects; each output is judged against a fresh copy of its input and dropped
                     final, t = [], 0
-                    for out in pipe.run(source_of(case, seq)):
+                    for out in pipe.run(source_of(case, seq), si):
                         ms, sz = members([out])
                         if sz:
                             sizes = (sizes or []) + sz
@@ -1508,7 +1606,7 @@ class C10(Property):
                     if t < len(seq) and not stop:
                         fails.append(F("B", "%s%s turned %d interactions into %d" % (where, plabel, len(seq), t), "%s:stream-length" % plabel))
                 else:
-                    out = list(pipe.run(source_of(case, seq)))
+                    out = list(pipe.run(source_of(case, seq), si))
                     fin, sizes = members(out)
                     original, _ = members([mk_inter(it, wrap) for it in seq])
                     has_target = any(callable(o.get("rewards")) or callable(o.get("feedbacks")) or ("action" in o and "actions" in o) for o in original)
@@ -1623,7 +1721,17 @@ class C10(Property):
     def shrink(self, case):
         st, ch = case["stream"], case["chain"]
         more = case.get("more") or []
-        if more:
+        if case.get("collection"):
+            ro = case.get("read_order") or list(range(1 + len(more)))
+            for i in range(len(ro)):
+                if len(ro) > 1:
+                    yield dict(case, read_order=ro[:i] + ro[i + 1:])
+            for j in range(len(more)):
+                # drop member j+1 (indices above it move down)
+                ro2 = [m - 1 if m > j + 1 else m for m in ro if m != j + 1]
+                if ro2:
+                    yield dict(case, more=more[:j] + more[j + 1:], read_order=ro2)
+        elif more:
             yield {k: v for k, v in case.items() if k != "more"}
             for i in range(len(more)):
                 yield dict(case, more=more[:i] + more[i + 1:])
@@ -1679,14 +1787,16 @@ class C10(Property):
         return ("import sys, json; sys.path[:0] = [%r, '/verif/harness']\n"
                 "from props.c10 import Pipeline, sequences, source_of, members, mk_inter, obs_target, logged_index\n"
                 "case = json.loads(%r)\n"
-                "pipe = Pipeline(case)          # the filter objects are built once\n"
-                "for seq in sequences(case):\n"
-                "    t = 0\n"
-                "    for out in pipe.run(source_of(case, seq)):   # a list, or a generator of fresh objects when delivery == 'lazy'\n"
+                "pipe = Pipeline(case)          # the filter objects / the Environments collection are built once\n"
+                "seqs = sequences(case)\n"
+                "order = case.get('read_order') if case.get('collection') else range(len(seqs))\n"
+                "for m in order:                # collection: the members of one Environments object, read in this order\n"
+                "    seq, t = seqs[m], 0\n"
+                "    for out in pipe.run(source_of(case, seq), m if case.get('collection') else 0):\n"
                 "        for n in members([out])[0]:\n"
                 "            o = members([mk_inter(seq[t], case.get('wrap'))])[0][0]\n"
-                "            print(t, 'rewards', obs_target(o, 'rewards'), '->', obs_target(n, 'rewards'), '| feedbacks', obs_target(o, 'feedbacks'), '->', obs_target(n, 'feedbacks'),\n"
-                "                  '| logged action index', logged_index(o), '->', logged_index(n))\n"
+                "            print('member' if case.get('collection') else 'sequence', m, 'interaction', t, 'rewards', obs_target(o, 'rewards'), '->', obs_target(n, 'rewards'),\n"
+                "                  '| feedbacks', obs_target(o, 'feedbacks'), '->', obs_target(n, 'feedbacks'), '| logged action index', logged_index(o), '->', logged_index(n))\n"
                 "            t += 1\n"
                 % (os.environ.get("COBA_REPO", "/repo"), json.dumps(case)))
 
